@@ -1,15 +1,27 @@
+// vinstr generates the overlay-instrumented sources for a prism tree (developer
+// tool; the C11 check calls the same generator in-process).
+// usage: vinstr <repo> <outdir> <xsched-dir>
 package main
 
 import (
+	"encoding/json"
 	"fmt"
-	"golang.org/x/tools/go/packages"
+	"os"
+
+	"verif/engine/xsched/instr"
 )
 
 func main() {
-	cfg := &packages.Config{Mode: packages.NeedName | packages.NeedFiles | packages.NeedSyntax | packages.NeedTypes | packages.NeedTypesInfo | packages.NeedDeps | packages.NeedImports | packages.NeedModule, Dir: "/repo"}
-	pkgs, err := packages.Load(cfg, "./...", "github.com/mandykoh/go-parallel")
-	fmt.Println(len(pkgs), err)
-	for _, p := range pkgs {
-		fmt.Println(p.PkgPath, len(p.Syntax), p.GoFiles, len(p.Errors))
+	if len(os.Args) != 4 {
+		fmt.Fprintln(os.Stderr, "usage: vinstr <repo> <outdir> <xsched-dir>")
+		os.Exit(2)
 	}
+	ov, st, err := instr.Generate(os.Args[1], os.Args[2], os.Args[3])
+	if err != nil {
+		fmt.Fprintln(os.Stderr, err)
+		os.Exit(1)
+	}
+	b, _ := json.MarshalIndent(st, "", " ")
+	fmt.Println(ov)
+	fmt.Println(string(b))
 }
